@@ -22,6 +22,9 @@ RULE = ("programs: (a) accir.gen_module functions (1-2 accelerators x 1-3 fields
         "calls with/without accfg.effects<none>, pure chains from loop induction variables) run through the real "
         "accfg-trace-states + accfg-dedup, (b) hand-threaded loops: 1-3 launches per body, integer iter_args "
         "feeding the setup, setups fed by pure chains / pure opaque ops / impure ops, launches before the setup, "
+        "a register value that is also an intermediate of a later-listed register value, "
+        "launches in front of the setup directly in the body or nested in an scf.if / scf.for, setups fed by results "
+        "of side-effect-free scf.if / scf.for ops that capture later body values (loop level and block level), "
         "post-loop launches with and without re-configuration (the F4 probe); every match_and_rewrite invocation "
         "of both patterns is one L1 case (distinct = distinct (IR, matched op, pattern)); a case is non-trivial "
         "when the pattern rewrote the IR or the matched setup has an input state. L2 inputs: trip counts 0-4, "
@@ -36,8 +39,8 @@ TRUSTED_BASE = [
 ]
 ASSUMPTIONS = [
     "integers are mathematical (i + step does not wrap)",
-    "a setup value that is the result of an scf.for / scf.if makes the model's dependency closure bail out (the Python "
-    "asks xDSL whether the region op is side-effect free); generated programs do not contain that shape",
+    "a setup value that is the result of an scf.for / scf.if makes the dependency closure bail out, in the model and "
+    "(since /repo fix add6c27) in the Python; generated programs contain that shape",
     "xDSL's greedy driver is not modelled: theorems are per rule application",
 ]
 ALLOWED_AXIOMS: list[str] = []
@@ -82,18 +85,33 @@ PROBE_F4 = f'''func.func @f(%x : i32, %v : i32, %lb : index, %ub : index, %st : 
 PROBE_KINDS = ["val", "val", "lb", "ub", "step"]
 
 
-def hand_loop(rng):
-    """A hand-threaded loop in the shape the lowering produces, with the variations the guards look at."""
+def hand_loop(rng, force=None):
+    """A hand-threaded loop in the shape the lowering produces, with the variations the guards look at.
+    `force` fixes some of the drawn choices (the corpus of canonical shapes that runs first in every check)."""
+    F = force or {}
     two_fields = rng.random() < 0.6
     int_iter = rng.random() < 0.5                  # loop-carried integer feeding the setup
-    chain = rng.choice(["cast", "add", "add_rev", "mul_add", "const", "opaque_pure", "impure", "outer", "add_rev", "load", "load"])
+    chain = rng.choice(["cast", "add", "add_rev", "mul_add", "const", "opaque_pure", "impure", "outer", "add_rev", "load", "load",
+                        "region_if", "region_for", "shared"])
+    if chain == "shared":
+        two_fields = True
     nested_relaunch = rng.random() < 0.2           # the state is launched again inside an scf.if before the next setup
     load_later = rng.random() < 0.3                # later setups take their value from memory, behind a store
     double_launch = rng.random() < 0.15            # the new state is launched twice: three uses of one state
     launch_first = rng.random() < 0.12             # a launch in front of the setup (guard)
+    # a launch on the loop-carried state in front of the setup but NESTED in a region (guard must look into regions:
+    # /repo fix 86c56b5; without it that launch observes the next iteration's configuration)
+    nested_launch_first = rng.choice([""] * 11 + ["if", "if", "for"])
+    region_later = rng.random() < 0.2              # a later setup of the body is fed by a region op capturing a later value
+    feed_k = rng.random() < 0.75                   # the loop-carried integer is a register value of the moved setup
     n_launch = rng.choice([1, 1, 2, 3])
     post = rng.choice(["none", "launch", "setup_all_launch", "setup_part_launch", "call_launch", "launch", "if_launch"])
     pre_setup = rng.random() < 0.8
+    two_fields, int_iter, chain = F.get("two_fields", two_fields), F.get("int_iter", int_iter), F.get("chain", chain)
+    if chain == "shared":
+        two_fields = True
+    launch_first, nested_launch_first = F.get("launch_first", launch_first), F.get("nested_launch_first", nested_launch_first)
+    n_launch, post, feed_k = F.get("n_launch", n_launch), F.get("post", post), F.get("feed_k", feed_k)
     L = []
     params = ["%x : i32", "%v : i32", "%lb : index", "%ub : index", "%st : index", "%c : i1", "%buf : memref<?xi32>"]
     kinds = ["val", "val", "lb", "ub", "step", "cond", "val"]
@@ -106,8 +124,13 @@ def hand_loop(rng):
     res = "%r:2" if int_iter else "%r"
     L.append(f"  {res} = scf.for %i = %lb to %ub step %st {iters} -> {rty} {{")
     B = []
-    if launch_first:
+    launch_direct = launch_first and rng.random() < 0.4   # ... as the op DIRECTLY in front of the setup, awaited behind it
+    if launch_first and not launch_direct:
         B += [_launch("%tq", "%l0"), _await("%tq")]
+    if nested_launch_first == "if":
+        B += ["scf.if %c {", "  " + _launch("%tnq", "%l0"), "  " + _await("%tnq"), "  scf.yield", "}"]
+    elif nested_launch_first == "for":
+        B += ["scf.for %jq = %lb to %ub step %st {", "  " + _launch("%tnq", "%l0"), "  " + _await("%tnq"), "  scf.yield", "}"]
     B.append("%w = arith.index_cast %i : index to i32")
     val = "%w"
     if chain == "add":
@@ -135,14 +158,38 @@ def hand_loop(rng):
     elif chain == "impure":
         B.append('%w2 = "test.op"(%w) : (i32) -> i32')
         val = "%w2"
+    elif chain == "shared":
+        # one register value is also an intermediate of a later-listed register value: the order in which the
+        # dependency walk discovers the ops is not a topological order
+        B += ["%w2 = arith.addi %w, %x : i32", "%w3 = arith.muli %w2, %v : i32"]
+        val = "%w2"
+    elif chain == "region_if":
+        # the value is the result of a side-effect-free scf.if whose region CAPTURES a value of the body
+        # (get_scoped_setup_inputs follows operands only; ops with regions are immovable: /repo fix add6c27)
+        B += ["%u2 = arith.addi %w, %x : i32",
+              "%w2 = scf.if %c -> (i32) {", "  scf.yield %u2 : i32", "} else {", "  scf.yield %x : i32", "}"]
+        val = "%w2"
+    elif chain == "region_for":
+        B += ["%u2 = arith.addi %w, %x : i32",
+              "%w2 = scf.for %jr = %lb to %ub step %st iter_args(%ar = %w) -> (i32) {",
+              "  %nr = arith.addi %ar, %u2 : i32", "  scf.yield %nr : i32", "}"]
+        val = "%w2"
     elif chain == "outer":
         val = "%x"
     sv = [("A", val)]
-    if two_fields and rng.random() < 0.7:
-        sv.append(("B", "%k0" if int_iter else "%x"))
+    if chain == "shared":
+        sv.append(("B", "%w3"))
+    elif int_iter and feed_k:
+        sv.append(("B", "%k0"))
+    elif two_fields and rng.random() < 0.7:
+        sv.append(("B", "%x"))
     if rng.random() < 0.3:
         B.append("%u = arith.addi %x, %v : i32")      # an op that does not feed the setup
+    if launch_direct:
+        B.append(_launch("%tq", "%l0"))
     B.append(f'%s1 = accfg.setup "acc" from %l0 to (' + ", ".join(f'"{f}" = {x} : i32' for f, x in sv) + f') : {ST}')
+    if launch_direct:
+        B.append(_await("%tq"))
     cur = "%s1"
     for j in range(n_launch):
         if j > 0:
@@ -151,6 +198,12 @@ def hand_loop(rng):
                 B.append(f"memref.store %v, %buf[%i] : memref<?xi32>")
                 B.append(f"%ld{j} = memref.load %buf[%i] : memref<?xi32>")
                 nv = f"%ld{j}"
+            elif region_later:
+                # block level: the region op sits between the previous launch and this setup and captures %cz,
+                # which is defined between them as well (moving the scf.if behind the launch would put it above %cz)
+                B += [f"%cz{j} = arith.addi %w, %v : i32",
+                      f"%rz{j} = scf.if %c -> (i32) {{", f"  scf.yield %cz{j} : i32", "} else {", "  scf.yield %x : i32", "}"]
+                nv = f"%rz{j}"
             B.append(f'%sx{j} = accfg.setup "acc" from {cur} to ("A" = {nv} : i32) : {ST}')
             cur = f"%sx{j}"
         B += [_launch(f"%t{j}", cur, lv="%x" if rng.random() < 0.3 else None), _await(f"%t{j}")]
@@ -253,15 +306,41 @@ class ProgTable:
         return self.idx[lit]
 
 
-def make_cases(ctx, n):
+# witnesses of repaired defects (known/C06.json "fixed"): part of every run, so that reverting a fix is seen whatever the seed
+# canonical shapes that run first in every check (the remaining choices of hand_loop stay random)
+CORPUS_FORCE = [
+    dict(chain="add", int_iter=True, feed_k=True, launch_first=False, nested_launch_first="", n_launch=1, post="setup_all_launch"),
+    dict(chain="mul_add", int_iter=True, feed_k=True, launch_first=False, nested_launch_first="", n_launch=2, post="launch"),
+    dict(chain="shared", int_iter=False, launch_first=False, nested_launch_first="", n_launch=2, post="none"),
+    dict(chain="add_rev", int_iter=False, launch_first=False, nested_launch_first="if", n_launch=1, post="setup_all_launch"),
+    dict(chain="cast", int_iter=True, feed_k=False, launch_first=True, nested_launch_first="", n_launch=1, post="none"),
+    dict(chain="region_if", int_iter=False, launch_first=False, nested_launch_first="", n_launch=2, post="none"),
+]
+
+PROBES_FIXED = [
+    ("probe_c06_nested_launch_before_setup.mlir", ["val", "val", "lb", "ub", "step", "cond"], "probe:fixed:nested_launch"),
+    ("probe_c06_pure_if_captures_later_value.mlir", ["val", "val", "cond"], "probe:fixed:region_op"),
+]
+
+
+def make_cases(ctx, n, hand_only=False):
     rng = ctx.rng
     out = []
     srcs = [(accir.parse(PROBE_F4.replace("@f(", "@f(").replace("func.func @f", "func.func @f")), PROBE_KINDS, "probe:F4")]
+    for fname, kinds, origin in PROBES_FIXED:
+        srcs.append((accir.parse((vlib.VERIF / "notes" / fname).read_text()), kinds, origin))
+    for force in CORPUS_FORCE:
+        text, kinds, origin = hand_loop(rng, force)
+        srcs.append((accir.parse(text), kinds, "corpus:" + origin))
     tries = 0
-    while len(srcs) < n + 1 and tries < 4 * n:
+    while len(srcs) < n + 1 + len(PROBES_FIXED) + len(CORPUS_FORCE) and tries < 4 * n:
         tries += 1
         try:
-            srcs.append(gen_source(rng))
+            if hand_only:
+                text, kinds, origin = hand_loop(rng)
+                srcs.append((accir.parse(text), kinds, origin))
+            else:
+                srcs.append(gen_source(rng))
         except Exception as e:
             ctx.notes.append(f"generator pipeline failed: {type(e).__name__}: {str(e)[:100]}")
     for mod, kinds, origin in srcs:
@@ -340,9 +419,18 @@ _CACHE = {}
 
 def _run(ctx):
     if "r" not in _CACHE:
-        cases = make_cases(ctx, ctx.n(40, 1200))
+        cases = make_cases(ctx, ctx.n(42, 1200))
         _CACHE["r"] = (cases, eval_cases(ctx, cases))
     return _CACHE["r"]
+
+
+def _run_deep(ctx):
+    """More programs for the search of a failing input when an obligation broke (hand-threaded family only: it
+    carries the shapes the guards and the clone construction depend on)."""
+    if "deep" not in _CACHE:
+        cases = make_cases(ctx, ctx.n(70, 300), hand_only=True)
+        _CACHE["deep"] = (cases, eval_cases(ctx, cases))
+    return _CACHE["deep"]
 
 
 def _view(c, rec=None):
@@ -371,7 +459,20 @@ def correspondence(ctx):
 
 
 def search(ctx, deep=False):
-    cases, res = _run(ctx)
+    fails = _search_in(ctx, *_run(ctx))
+    if deep and not any(f["klass"] is None for f in fails):
+        fails += _search_in(ctx, *_run_deep(ctx))
+    # one representative per (what, klass)
+    out, seen2 = [], set()
+    for f in fails:
+        k = (f["what"], f["klass"])
+        if k not in seen2:
+            seen2.add(k)
+            out.append(f)
+    return out
+
+
+def _search_in(ctx, cases, res):
     fails = []
     viol = set(res["l2_viol"])
     seen = set()
@@ -400,14 +501,7 @@ def search(ctx, deep=False):
         if "recs" in c:
             ctx.count({"L2": "overlap", "origin": c["origin"], "rewrites": sum(1 for r in c["recs"] if r["after"] is not None)},
                       any(r["after"] is not None for r in c["recs"]), "L2" + c["before_text"], "L2:" + c["origin"].split(":")[0])
-    # one representative per (what, klass)
-    out, seen2 = [], set()
-    for f in fails:
-        k = (f["what"], f["klass"])
-        if k not in seen2:
-            seen2.add(k)
-            out.append(f)
-    return out
+    return fails
 
 
 def _replay_text(text, kinds, args_list, show=False):
